@@ -376,7 +376,7 @@ done:
 						for _, k := range keys {
 							ev := rv.MapIndex(k)
 							if nv, changed := modifier(ev.Interface()); changed {
-								rv.SetMapIndex(k, reflect.ValueOf(nv))
+								rv.SetMapIndex(k, reflectValueOrZero(nv, rv.Type().Elem()))
 								if one && changed {
 									break done
 								}
@@ -806,7 +806,7 @@ done:
 							vv := ev.Interface()
 							if tf.Match(vv) {
 								if nv, changed := modifier(vv); changed {
-									rv.SetMapIndex(k, reflect.ValueOf(nv))
+									rv.SetMapIndex(k, reflectValueOrZero(nv, rv.Type().Elem()))
 									if one && changed {
 										break done
 									}
@@ -950,4 +950,14 @@ func descentAddValue(stack []any, v any, fi fragIndex) []any {
 		}
 	}
 	return stack
+}
+
+// reflectValueOrZero is reflect.ValueOf(v) except that a nil v becomes the
+// zero value of the type: SetMapIndex with the invalid reflect.Value that
+// ValueOf(nil) returns would delete the member instead of setting it to nil.
+func reflectValueOrZero(v any, rt reflect.Type) reflect.Value {
+	if rv := reflect.ValueOf(v); rv.IsValid() {
+		return rv
+	}
+	return reflect.Zero(rt)
 }
